@@ -146,26 +146,75 @@ Proof.
     rewrite events_of_app, rev_app_distr, <- app_assoc. reflexivity.
 Qed.
 
+(* events other than rule results: module imports and strings reaching the match limit *)
+Definition import_events (c : cfg) (inp : inputs) : list event :=
+  if c_ev_import c then map EvImport (i_imports inp) else [].
+Definition limit_events (c : cfg) (hits : list (list N)) : list event :=
+  if c_ev_limit c then flat_map (map EvLimit) hits else [].
+Definition pre_events (c : cfg) (inp : inputs) : list event :=
+  (if c_direct c then import_events c inp else [])
+  ++ limit_events c (i_ac inp)
+  ++ (if c_direct c then [] else import_events c inp).
+
+Lemma emit_all_never l : forall s,
+  emit_all Never l s = (updE s (pend s) (rev l ++ evs s) (nchecks s), inl tt).
+Proof.
+  induction l as [|e l IH]; intros s; cbn [emit_all].
+  - unfold ret, updE. cbn. destruct s; reflexivity.
+  - unfold bindM, emit. rewrite IH. unfold updE. cbn [pend evs nchecks rev]. rewrite <- app_assoc. reflexivity.
+Qed.
+
+Lemma send_imports_cb c inp s : c_cb c = true ->
+  send_imports c Never inp s = (updE s (pend s) (rev (import_events c inp) ++ evs s) (nchecks s), inl tt).
+Proof.
+  intros Hcb. unfold send_imports, import_events. rewrite Hcb. cbn [andb].
+  destruct (c_ev_import c); [apply emit_all_never|]. unfold ret, updE. cbn. destruct s; reflexivity.
+Qed.
+
+Lemma ac_phase_cb c hits : c_cb c = true -> forall s,
+  exists k, ac_phase c Never hits s = (updE s (pend s) (rev (limit_events c hits) ++ evs s) k, inl tt).
+Proof.
+  intros Hcb. unfold limit_events. induction hits as [|lim hits IH]; intros s; cbn [ac_phase flat_map].
+  - exists (nchecks s). unfold ret, updE. destruct (c_ev_limit c); cbn; destruct s; reflexivity.
+  - unfold bindM at 1. destruct (tick_never 1 s) as [k1 E1]. rewrite E1. rewrite Hcb. cbn [andb].
+    unfold bindM at 1. destruct (c_ev_limit c).
+    + rewrite emit_all_never. cbn [pend evs nchecks upd updE].
+      destruct (IH (updE (upd s (pend s) k1) (pend s) (rev (map EvLimit lim) ++ evs s) k1)) as [k2 E2].
+      rewrite E2. exists k2. unfold updE. cbn [pend evs]. rewrite rev_app_distr, <- app_assoc. reflexivity.
+    + unfold ret. destruct (IH (upd s (pend s) k1)) as [k2 E2]. rewrite E2. exists k2. reflexivity.
+Qed.
+
 Lemma full_scan_cb c inp sc :
   c_cb c = true -> wf_scanner inp sc = true ->
-  exists k, full_scan c Never inp sc {| pend := []; evs := []; nchecks := 0 |}
-            = ({| pend := []; evs := rev (events_of c (scan_result c inp sc)); nchecks := k |}, inl tt).
+  forall e0, exists k, full_scan c Never inp sc {| pend := []; evs := e0; nchecks := 0 |}
+            = ({| pend := [];
+                  evs := rev (limit_events c (i_ac inp) ++ (if c_direct c then [] else import_events c inp)
+                              ++ events_of c (scan_result c inp sc)) ++ e0;
+                  nchecks := k |}, inl tt).
 Proof.
-  intros Hcb Hw. pose proof Hw as Hw'. unfold wf_scanner in Hw'. apply andb_true_iff in Hw' as [Hwg Hwr].
+  intros Hcb Hw e0. pose proof Hw as Hw'. unfold wf_scanner in Hw'. apply andb_true_iff in Hw' as [Hwg Hwr].
   unfold full_scan, scan_result.
-  set (s0 := {| pend := []; evs := []; nchecks := 0 |}).
-  unfold bindM at 1. destruct (tick_never (i_ac_checks inp) s0) as [k0 E0]. rewrite E0.
+  set (s0 := {| pend := []; evs := e0; nchecks := 0 |}).
+  unfold bindM at 1. destruct (ac_phase_cb c (i_ac inp) Hcb s0) as [k0 E0]. rewrite E0.
+  unfold bindM at 1.
+  set (ei := if c_direct c then [] else import_events c inp).
+  assert (Eimp : (if c_direct c then ret tt else send_imports c Never inp)
+                   (updE s0 (pend s0) (rev (limit_events c (i_ac inp)) ++ evs s0) k0)
+                 = (updE s0 [] (rev ei ++ rev (limit_events c (i_ac inp)) ++ e0) k0, inl tt)).
+  { subst ei s0. destruct (c_direct c); [reflexivity|]. rewrite send_imports_cb by exact Hcb. reflexivity. }
+  rewrite Eimp. clear Eimp.
   unfold bindM at 1. unfold ctx0.
   destruct (eval_globals_any c inp (s_globals sc) (repeat false (s_nns sc)) (i_matches inp) false
-              (upd s0 (pend s0) k0) Hwg) as [k1 E1].
+              (updE s0 [] (rev ei ++ rev (limit_events c (i_ac inp)) ++ e0) k0) Hwg) as [k1 E1].
   rewrite E1. clear E1.
   rewrite (g_fold_ms _ c inp (s_globals sc) _ (repeat false (s_nns sc)) (i_matches inp)) in Hwr.
   destruct (g_fold c inp (repeat false (s_nns sc)) (i_matches inp) (s_globals sc)) as [[D m] greps].
-  cbn [fst snd pend upd evs] in *. subst s0. cbn [pend evs app].
+  cbn [fst snd pend upd updE evs app] in *.
   unfold bindM at 1. rewrite fixup_list'. cbn [x_disabled pend upd evs nchecks].
   unfold all_disabled. cbn [x_disabled].
   destruct (negb (c_nm c) && forallb (fun b : bool => b) D).
-  - unfold clear_pend. cbn [evs nchecks]. exists k1. reflexivity.
+  - unfold clear_pend. cbn [evs nchecks]. exists k1. f_equal. f_equal.
+    cbn [events_of flat_map]. rewrite app_nil_r, rev_app_distr, <- app_assoc. reflexivity.
   - unfold bindM at 1. unfold flush. rewrite Hcb. unfold bindM at 1. unfold get_pend at 1. unfold bindM at 1.
     unfold clear_pend at 1. rewrite flush_list_never. cbn [pend evs nchecks updE].
     unfold bindM at 1.
@@ -173,20 +222,27 @@ Proof.
       destruct (eval_rules_cb c inp (s_rules sc) Hcb D m [] st Hwr) as [k2 E2]; rewrite E2
     end.
     unfold ret. cbn [evs pend updE]. exists k2. unfold updE. f_equal. f_equal.
-    rewrite app_nil_r, events_of_app, rev_app_distr. reflexivity.
+    rewrite events_of_app, !rev_app_distr, <- !app_assoc. reflexivity.
 Qed.
 
 Theorem run_scan_callback_spec c inp sc :
   c_cb c = true -> can_noscan c = false ->
   wf_scanner inp sc = true -> ns_bound (s_nns sc) (s_globals sc) -> ns_bound (s_nns sc) (s_rules sc) ->
   o_err (run_scan c Never inp sc) = None
-  /\ o_events (run_scan c Never inp sc) = spec_events c sc inp
+  /\ o_events (run_scan c Never inp sc) = pre_events c inp ++ spec_events c sc inp
   /\ o_rules (run_scan c Never inp sc) = [].
 Proof.
   intros Hcb Hns Hw Hbg Hbr.
   assert (Hspec : spec_events c sc inp = events_of c (scan_result c inp sc)).
   { unfold spec_events. rewrite <- (scan_result_spec c inp sc Hbg Hbr). reflexivity. }
   rewrite Hspec. unfold run_scan, do_scan. rewrite Hns.
-  destruct (full_scan_cb c inp sc Hcb Hw) as [k E]. rewrite E.
-  cbn [o_err o_events o_rules evs]. rewrite Hcb, rev_involutive. repeat split.
+  set (s0 := {| pend := []; evs := []; nchecks := 0 |}).
+  set (ed := if c_direct c then import_events c inp else []).
+  assert (Eimp : (if c_direct c then send_imports c Never inp else ret tt) s0
+                 = ({| pend := []; evs := rev ed ++ []; nchecks := 0 |}, inl tt)).
+  { subst ed s0. destruct (c_direct c); [rewrite send_imports_cb by exact Hcb; reflexivity|reflexivity]. }
+  unfold bindM. rewrite Eimp.
+  destruct (full_scan_cb c inp sc Hcb Hw (rev ed ++ [])) as [k E]. rewrite E.
+  cbn [o_err o_events o_rules evs]. rewrite Hcb. split; [reflexivity|]. split; [|reflexivity].
+  unfold pre_events. fold ed. rewrite app_nil_r, rev_app_distr, !rev_involutive, <- !app_assoc. reflexivity.
 Qed.
